@@ -386,6 +386,43 @@ func (f *Flow) Exits() []Exit {
 	return out
 }
 
+// ExitsPerPath is Exits, except that an exit which is nothing but the join at
+// the end of the function body (an empty block reached by falling out of an
+// if / else-if / else ladder) is replaced by one exit per predecessor: the
+// rules about "what has happened on this failure path" then see each arm of the
+// ladder by itself instead of the intersection of all of them.
+func (f *Flow) ExitsPerPath() []Exit {
+	preds := map[*cfg.Block][]*cfg.Block{}
+	for _, b := range f.G.Blocks {
+		if !f.live(b) {
+			continue
+		}
+		for _, s := range b.Succs {
+			preds[s] = append(preds[s], b)
+		}
+	}
+	var out []Exit
+	var expand func(e Exit, depth int)
+	expand = func(e Exit, depth int) {
+		// go/cfg makes falling off the end explicit with a synthetic `return` at the closing brace
+		empty := len(e.Block.Nodes) == 0
+		if len(e.Block.Nodes) == 1 && e.Ret != nil && len(e.Ret.Results) == 0 && e.Ret.Pos() >= f.Body.Rbrace {
+			empty = true
+		}
+		if !e.Panic && empty && len(preds[e.Block]) > 1 && depth > 0 {
+			for _, p := range preds[e.Block] {
+				expand(Exit{Block: p, Pos: e.Pos}, depth-1)
+			}
+			return
+		}
+		out = append(out, e)
+	}
+	for _, e := range f.Exits() {
+		expand(e, 3)
+	}
+	return out
+}
+
 // AtExit returns the facts holding at an exit (after its last node).
 func (s *Sol) AtExit(e Exit) Facts {
 	if e.Ret != nil {
